@@ -1,6 +1,7 @@
 import P2.Proofs.ParseRound
 import P2.Proofs.ParseSound
 import P2.Proofs.ParseSoundFull
+import P2.Proofs.ParseSoundKw
 import P2.Proofs.ParseNoPanic
 import P2.Proofs.ParseMono
 import P2.Proofs.ParseFuel
@@ -26,8 +27,12 @@ What the statements say, in the words of the property:
   postfix expression — all of that is *defined* by `render` (where it puts parentheses) and *proved* by
   the round trip; it covers every form of the language (postfix forms with argument lists and trailing
   commas, `let/func/if/switch/try`, closures, list and map literals).
-* `parse_sound_partial` — what is accepted is a rendering of what is returned (nothing truncated,
-  dropped or regrouped) — for the operator core; with `parse_render` an *iff* (`parse_iff_core`).
+* `parse_sound` — what is accepted is a rendering of what is returned (nothing truncated, dropped or
+  regrouped) — for **every form of the language** (`if/try/switch`, `let/func` included) under the side
+  condition `NoConstLet` (no `let` binds a constant: the parser substitutes such bindings and drops the
+  `let`, `let_const_not_a_rendering`); with `parse_render` an *iff*: the parser accepts **exactly** the
+  renderings (`parse_iff`). `parse_sound_noletfunc` / `parse_iff_noletfunc`: no side condition at all for
+  token lists without the keywords `let`/`func`.
 * `parse_no_panic`, `parse_total` — no table and no input reaches a Go panic; the answer is a tree that
   consumed all tokens, or an error.
 * `detector_longest` — maximal munch of the operator trie under its side condition. -/
@@ -85,21 +90,79 @@ example : parse tbl σ0 [.ident "a", .op "-", .ident "b", .op "-", .ident "a", .
 
 /-! ## C03.2 soundness (accepted ⇒ a rendering of the result) -/
 
-/- Full statement (NOT proved for all forms):
-   `parse_sound : TableWF t → HostScope σ → parse t σ ts = .ok e [] → ∃ ρ, ts = render t ρ 0 .none e`
-   Proved below as `parse_sound_partial` for every token list without keyword tokens, i.e. for every
-   form except `let/func/if/try/switch`: binary and prefix operators, call, index, member access, method
-   call, argument lists with trailing commas, list and map literals, both closure forms, any
-   parentheses. Missing shapes: `if/try/switch` and `let/func`. For `let` the full statement needs the
-   side condition "no `let` binds a constant": the parser substitutes constant bindings and drops the
-   `let`, so the returned tree is then NOT a rendering of the input — this is also why `HostScope σ` (no
-   `let`-bound constant in scope) is assumed. For the missing shapes this direction is covered by
-   `parse_balanced` / `parse_keywords_paired` below (all forms) and by the malformed stream of the
-   correspondence run. -/
+/- Full statement as first written:
+   `TableWF t → HostScope σ → parse t σ ts = .ok e [] → ∃ ρ, ts = render t ρ 0 .none e`.
+   It is FALSE as it stands (`let_const_not_a_rendering`): `parseLet` substitutes a `let` that binds a
+   constant (`let x = 1; x` gives the tree `1`) and drops the `let`, so the returned tree is then not a
+   rendering of the input. It is proved below, for every form of the language — binary and prefix
+   operators, call, index, member access, method call, argument lists with trailing commas, list and map
+   literals, both closure forms, any parentheses, `if/then/else`, `try/catch` (the catch part is any
+   expression, in particular a closure `e -> …`), `switch/case/default`, `let`, `func` — under the side
+   condition that excludes exactly that branch:
 
-/-- **C03.2 (partial: keyword-free programs)**: whatever is accepted is a rendering of the returned tree
-with some choice of redundant parentheses and trailing commas — nothing is truncated, dropped or
-regrouped — and the result is well-formed. -/
+   `NoConstLet cs ts` (decidable, on the token list): no position of `ts` starts with
+   `let x = (…( c )…) ;` where `c` is a number token, a string token or an identifier of `cs`;
+   `cs = constNames σ` are the names the host scope maps to constants. (`tie/c03.go`,
+   `c3LetConstSuspect`, is the same scan, negated, with a larger name set: the harness' pool of constant
+   names plus every `let`-bound name of the token list.)
+   The predicate is syntactic and therefore slightly conservative: it also excludes a `let` whose value
+   is an identifier of `cs` that is shadowed at that position by a parameter or a `let` variable of the same
+   name (there the parser does not substitute). Nothing else is missing: `func` never substitutes in the
+   model (no optimizer is installed, see `Model/Parse.lean`), and token lists without `let`/`func`
+   (`NoLetFunc`) satisfy the condition trivially, so for them soundness holds outright
+   (`parse_sound_noletfunc`). `HostScope σ` says that the scope the host passes in maps constant names
+   to host constants (no `let`-bound constant is in scope at the start). -/
+
+/-- **C03.2 soundness, every form**: if no `let` binds a constant (`NoConstLet`), whatever is accepted is
+a rendering of the returned tree with some choice of redundant parentheses and trailing commas — nothing
+is truncated, dropped or regrouped — and the result is well-formed over the table and the scope. -/
+theorem parse_sound {t : Table} (hwf : TableWF t) {σ : Scope} (hσ : HostScope σ) (ts : List Tok) (e : E)
+    (hk : NoConstLet (constNames σ) ts = true) (h : parse t σ ts = .ok e []) :
+    ∃ ρ : Deco, ts = render t ρ 0 .none e ∧ WF t σ true e :=
+  parseTop_sound hwf (scopeOK_of_host hσ) _ ts e hk h
+
+/-- **C03.1 + C03.2**: under the side condition the parser accepts **exactly** the renderings of
+well-formed trees — every form of the language -/
+theorem parse_iff {t : Table} (hwf : TableWF t) {σ : Scope} (hσ : HostScope σ) (ts : List Tok) (e : E)
+    (hk : NoConstLet (constNames σ) ts = true) :
+    parse t σ ts = .ok e [] ↔ ∃ ρ : Deco, ts = render t ρ 0 .none e ∧ WF t σ true e := by
+  constructor
+  · exact fun h => parse_sound hwf hσ ts e hk h
+  · rintro ⟨ρ, rfl, hw⟩
+    exact parse_render hwf σ e ρ hw
+
+/-- the same for any over-approximation `cs` of the constant names in scope -/
+theorem parse_sound_names {t : Table} (hwf : TableWF t) {σ : Scope} (cs : List String) (hσ : ScopeOK cs σ)
+    (ts : List Tok) (e : E) (hk : NoConstLet cs ts = true) (h : parse t σ ts = .ok e []) :
+    ∃ ρ : Deco, ts = render t ρ 0 .none e ∧ WF t σ true e :=
+  parseTop_sound hwf hσ _ ts e hk h
+
+/-- soundness without side condition on the program when the keywords `let`/`func` do not occur:
+operators, postfix forms, literals, closures, `if/then/else`, `try/catch`, `switch/case/default` -/
+theorem parse_sound_noletfunc {t : Table} (hwf : TableWF t) {σ : Scope} (hσ : HostScope σ) (ts : List Tok) (e : E)
+    (hk : NoLetFunc ts = true) (h : parse t σ ts = .ok e []) :
+    ∃ ρ : Deco, ts = render t ρ 0 .none e ∧ WF t σ true e :=
+  parse_sound hwf hσ ts e (adm_of_noLetFunc _ ts hk) h
+
+theorem parse_iff_noletfunc {t : Table} (hwf : TableWF t) {σ : Scope} (hσ : HostScope σ) (ts : List Tok) (e : E)
+    (hk : NoLetFunc ts = true) :
+    parse t σ ts = .ok e [] ↔ ∃ ρ : Deco, ts = render t ρ 0 .none e ∧ WF t σ true e :=
+  parse_iff hwf hσ ts e (adm_of_noLetFunc _ ts hk)
+
+/-- the side condition is needed: `let x = 1; x` is accepted, the `let` is dropped and `1` is returned,
+which no decoration renders as the input -/
+theorem let_const_not_a_rendering :
+    parse tbl σ0 [.kw "let", .ident "x", .op "=", .num "1", .semi, .ident "x"] = .ok (.num "1") [] ∧
+    (∀ ρ : Deco, [.kw "let", .ident "x", .op "=", .num "1", .semi, .ident "x"] ≠ render tbl ρ 0 .none (.num "1")) ∧
+    NoConstLet (constNames σ0) [.kw "let", .ident "x", .op "=", .num "1", .semi, .ident "x"] = false := by
+  refine ⟨by rfl, fun ρ h => ?_, by decide⟩
+  have hr : render tbl ρ 0 .none (.num "1") = parenN ρ.par [.num "1"] := by
+    simp [render, wrap, nPar, E.isLet, needs, shape]
+    split <;> simp_all [parenN]
+  rw [hr] at h
+  cases hp : ρ.par <;> simp [hp, parenN] at h
+
+/-- the keyword-free special case (kept under its earlier name; subsumed by `parse_sound`) -/
 theorem parse_sound_partial {t : Table} (hwf : TableWF t) {σ : Scope} (hσ : HostScope σ) (ts : List Tok) (e : E)
     (hk : NoKw ts) (h : parse t σ ts = .ok e []) :
     ∃ ρ : Deco, ts = render t ρ 0 .none e ∧ WF t σ true e :=
@@ -113,6 +176,15 @@ theorem parse_iff_nokw {t : Table} (hwf : TableWF t) {σ : Scope} (hσ : HostSco
   · exact fun h => parse_sound_partial hwf hσ ts e hk h
   · rintro ⟨ρ, rfl, hw⟩
     exact parse_render hwf σ e ρ hw
+
+/-- soundness at every level of the precedence climb and with a remainder, every form: the parse at level
+`k` consumed exactly a rendering for that level (followed by what the remainder starts with) and stopped
+only where level `k` cannot continue -/
+theorem level_sound {t : Table} (hwf : TableWF t) {σ : Scope} (hσ : HostScope σ) (f k : Nat)
+    (ts : List Tok) (e : E) (r : List Tok) (hk : k ≤ t.n + 1) (ha : NoConstLet (constNames σ) ts = true)
+    (h : entry t f σ k ts = .ok e r) :
+    ∃ ρ : Deco, ts = render t ρ k (followOf t r) e ++ r ∧ WF t σ false e ∧ StopLt t k r :=
+  entry_sound hwf (scopeOK_of_host hσ) f k ts e r hk ha h
 
 /-- the operator core alone, under the weaker condition that the input does not *start* with a keyword
 and the result is built from identifiers, constants, binary and prefix operators -/
@@ -136,6 +208,58 @@ example : HostScope σ0 := by
   simp only [σ0, lookup] at h
   repeat' split at h
   all_goals simp_all
+
+/-! non-vacuity of `parse_sound` / `parse_sound_noletfunc`: for each keyword form a token list that is
+accepted and satisfies the hypotheses -/
+
+example : constNames σ0 = ["pi"] := by decide
+
+/-- `if a then b else f(a)` -/
+example : NoLetFunc [.kw "if", .ident "a", .kw "then", .ident "b", .kw "else", .ident "f", .lp, .ident "a", .rp]
+    = true := by decide
+example : parse tbl σ0 [.kw "if", .ident "a", .kw "then", .ident "b", .kw "else", .ident "f", .lp, .ident "a", .rp]
+    = .ok (.ite (.ident "a") (.ident "b") (.call (.ident "f") [.ident "a"])) [] := by rfl
+
+/-- `try a catch b` and `try a catch e -> e + b` (both catch forms) -/
+example : NoLetFunc [.kw "try", .ident "a", .kw "catch", .ident "b"] = true := by decide
+example : parse tbl σ0 [.kw "try", .ident "a", .kw "catch", .ident "b"]
+    = .ok (.tryC (.ident "a") (.ident "b")) [] := by rfl
+example : NoLetFunc [.kw "try", .ident "a", .kw "catch", .ident "e", .op "->", .ident "e", .op "+", .ident "b"]
+    = true := by decide
+example : parse tbl σ0 [.kw "try", .ident "a", .kw "catch", .ident "e", .op "->", .ident "e", .op "+", .ident "b"]
+    = .ok (.tryC (.ident "a") (.clos ["e"] (.bin "+" (.ident "e") (.ident "b")))) [] := by rfl
+
+/-- `switch a case 1: b case pi: (a) default -a` -/
+example : NoLetFunc [.kw "switch", .ident "a", .kw "case", .num "1", .colon, .ident "b", .kw "case", .ident "pi",
+    .colon, .lp, .ident "a", .rp, .kw "default", .op "-", .ident "a"] = true := by decide
+example : parse tbl σ0 [.kw "switch", .ident "a", .kw "case", .num "1", .colon, .ident "b", .kw "case", .ident "pi",
+    .colon, .lp, .ident "a", .rp, .kw "default", .op "-", .ident "a"]
+    = .ok (.switch (.ident "a") [(.num "1", .ident "b"), (.cst "pi", .ident "a")] (.un "-" (.ident "a"))) [] := by rfl
+
+/-- `let x = a * pi; if x then x else 1` — the value is not a constant, the `let` stays -/
+example : NoConstLet (constNames σ0) [.kw "let", .ident "x", .op "=", .ident "a", .op "*", .ident "pi", .semi,
+    .kw "if", .ident "x", .kw "then", .ident "x", .kw "else", .num "1"] = true := by decide
+example : parse tbl σ0 [.kw "let", .ident "x", .op "=", .ident "a", .op "*", .ident "pi", .semi,
+    .kw "if", .ident "x", .kw "then", .ident "x", .kw "else", .num "1"]
+    = .ok (.letE "x" (.bin "*" (.ident "a") (.cst "pi")) (.ite (.ident "x") (.ident "x") (.num "1"))) [] := by rfl
+
+/-- `let x = (a); x` — a parenthesised variable is not a constant -/
+example : NoConstLet (constNames σ0) [.kw "let", .ident "x", .op "=", .lp, .ident "a", .rp, .semi, .ident "x"]
+    = true := by decide
+
+/-- `func g(p, q) p + q; g(a, 1)` -/
+example : NoConstLet (constNames σ0) [.kw "func", .ident "g", .lp, .ident "p", .comma, .ident "q", .rp,
+    .ident "p", .op "+", .ident "q", .semi, .ident "g", .lp, .ident "a", .comma, .num "1", .rp] = true := by decide
+example : parse tbl σ0 [.kw "func", .ident "g", .lp, .ident "p", .comma, .ident "q", .rp,
+    .ident "p", .op "+", .ident "q", .semi, .ident "g", .lp, .ident "a", .comma, .num "1", .rp]
+    = .ok (.funcE "g" ["p", "q"] (.bin "+" (.ident "p") (.ident "q")) (.call (.ident "g") [.ident "a", .num "1"])) [] := by
+  rfl
+
+/-- the forbidden pattern: number, string, host constant, in any parentheses -/
+example : NoConstLet (constNames σ0) [.kw "let", .ident "x", .op "=", .lp, .lp, .ident "pi", .rp, .rp, .semi, .ident "x"]
+    = false := by decide
+example : NoConstLet (constNames σ0) [.ident "f", .lp, .kw "let", .ident "x", .op "=", .str "s", .semi, .ident "x", .rp]
+    = false := by decide
 
 /-- malformed inputs over `tbl`: unbalanced bracket, missing operand, trailing token — errors -/
 example : parse tbl σ0 [.lp, .ident "a", .op "+", .ident "b"] = .err := by rfl
